@@ -6,6 +6,7 @@
 //! * C30: fault enumeration over where a plaintext NTS-KE byte stream is cut / fragmented,
 //!   driving the real record / request / response parsers directly over `SimStream`.
 
+mod degen;
 mod ke;
 mod parse;
 mod raw;
@@ -73,7 +74,7 @@ fn main() {
                 thorough_wall_s: 1500.0,
                 event_cap: 1_000,
                 enumerate: Some(parse::n_cases),
-                rule: "one run = one (message, parser, chunking class) triple of the enumerated space; inside the run the message is delivered with EOF (or reset) at EVERY byte offset (messages > 2048 bytes: every offset near the start and around the 4096 cap, strided in between) and once uncut; messages = everything the real client/server serialise in W3 + every record type + boundary sizes 4095..4100 + oversize (to 3x4096) + endless record streams + a fixed set of mutated variants per message",
+                rule: "one run = one (message, parser, chunking class) triple of the enumerated space; inside the run the message is delivered with EOF (or reset) at EVERY byte offset (messages > 2048 bytes: every offset near the start and around the 4096 cap, strided in between) and once uncut; messages = everything the real client/server serialise in W3 + every record type + boundary sizes 4095..4100 + oversize (to 3x4096) + endless record streams + the systematic well-framed degenerate-content family (degen.rs) + a fixed set of mutated variants per message",
                 assumptions: &[
                     "the fault position (cut offset x chunking class) is enumerated completely for the listed messages; the message space itself is sampled (real messages + mutated variants), not all byte streams",
                     "plaintext seam: the parsers are driven directly over SimStream (they are generic over AsyncRead); the TLS layer in front of them is exercised in the C28/C29 runs",
